@@ -159,7 +159,9 @@ func c15(c *Ctx) {
 	r.Rule("R-C15.2", "no field of InterceptingListener is written outside NewInterceptingListener")
 	r.Rule("R-C15.3", "the ClientInfo handed to the TLS callback is allocated inside the accept loop body (one per connection) and is used only by that iteration's callback and NewConn")
 	r.Rule("R-C15.4", "no package-level variable of protocol, tls, registration, types or the root package is written outside init (generated *.pb.go excluded: sync.Once-guarded protobuf runtime state)")
+	r.Rule("R-C15.5", "objects the application handed over in options (the listener passes one option list to every handshake) are never written: in the hand-written packages no store or map update, directly or in a helper (depth <= 2, parameters bound to arguments), has a target reached through a field of a parsed Options value (opts.WithState.Fields[k] = v, *opts.WithX = ...)")
 	r.NotDecided = append(r.NotDecided, "races inside the application's Storage", "fairness", "that outcomes equal a sequential run (needs execution)")
+	c15OptionObjects(c)
 
 	// R-C15.1
 	var stores []*ssa.Store
@@ -301,6 +303,7 @@ func c16(c *Ctx) {
 	p, r := c.P, c.R
 	r.Rule("R-C16.1", "the value stored to clientInfo.nextProtos is built from a zero-length slice by appending, in one range over hello.SupportedProtos, the loop element itself; the only test between the loop head and the append is HasPrefix(elem, certificate-preference prefix)")
 	r.Rule("R-C16.2", "clientInfo.clientState is assigned from the certificate function's response on its success edge; that response field is set behind C05's gate (evaluated here)")
+	r.Rule("R-C16.5", "the option that carries the list from Accept to NewConn is lossless: the closure of nodeenrollment.WithExtraAlpnProtos stores its argument itself, or an exact copy (make of the same length filled by copy, slices.Clone, append to nil), into Options.WithExtraAlpnProtos - no filtering, de-duplication or reordering")
 	r.Rule("R-C16.3", "Accept passes exactly the current connection's clientInfo.nextProtos and clientInfo.clientState to NewConn")
 	r.Rule("R-C16.4", "ClientNextProtos returns nil, an empty literal or a fresh make filled by copy; NewConn stores a fresh copy; neither aliases the caller's or the connection's slice")
 	r.NotDecided = append(r.NotDecided, "equality for every state structure (proto marshal/unmarshal round trip)", "large values")
@@ -436,6 +439,59 @@ func c16(c *Ctx) {
 		}
 	}
 	c05(c)
+
+	// R-C16.5
+	if of := c.need("R-C16.5", "", "WithExtraAlpnProtos"); of != nil {
+		n := 0
+		for _, cl := range of.AnonFuncs {
+			for i, st := range storesToField(cl, "nodeenrollment.Options", "WithExtraAlpnProtos") {
+				n++
+				arg := freeVar(cl, of.Params[0].Name())
+				v := core.Strip(st.Val)
+				ok, why := false, core.ValueName(v)
+				isArg := func(x ssa.Value) bool {
+					x = core.Strip(x)
+					if arg != nil && x == arg {
+						return true
+					}
+					pp := core.PathOf(x)
+					return arg != nil && pp.Root == arg && len(pp.Fields) == 0
+				}
+				switch x := v.(type) {
+				case *ssa.Const:
+					// "if with == nil { o.X = nil }" keeps nil as nil
+					ok, why = x.Value == nil, "nil"
+				case *ssa.MakeSlice:
+					// make([]string, len(arg)) + copy(dst, arg)
+					lenOK := false
+					if lc, isCall := x.Len.(*ssa.Call); isCall && core.CalleeName(lc.Common()) == "builtin:len" && isArg(lc.Call.Args[0]) {
+						lenOK = true
+					}
+					copied := false
+					for _, cc := range callsNamed(cl, "builtin:copy") {
+						if core.Strip(cc.Call.Args[0]) == ssa.Value(x) && isArg(cc.Call.Args[1]) {
+							copied = true
+						}
+					}
+					ok, why = lenOK && copied, "make(len(arg)) + copy"
+				case *ssa.Call:
+					switch core.CalleeName(x.Common()) {
+					case "slices.Clone":
+						ok, why = isArg(x.Call.Args[0]), "slices.Clone(arg)"
+					case "builtin:append":
+						ok, why = core.IsNilConst(core.Strip(x.Call.Args[0])) && isArg(x.Call.Args[1]), "append(nil, arg...)"
+					}
+				default:
+					ok, why = isArg(v), "the argument itself"
+				}
+				r.Check(ok, "R-C16.5", fmt.Sprintf("nodeenrollment.WithExtraAlpnProtos store#%d", i), p.Pos(st.Pos()), why,
+					"the option does not carry its argument unchanged ("+why+"): the protocol list reported for a connection is no longer the list the client offered")
+			}
+		}
+		if n == 0 {
+			r.Unk("R-C16.5", "nodeenrollment.WithExtraAlpnProtos store", p.Pos(of.Pos()), "the option closure does not assign Options.WithExtraAlpnProtos")
+		}
+	}
 
 	// R-C16.3
 	acc := c.need("R-C16.3", "protocol", "(*InterceptingListener).Accept")
@@ -583,4 +639,62 @@ func copiedIntoField(fn *ssa.Function, st *ssa.Store, lastField string) bool {
 		}
 	}
 	return false
+}
+
+
+// c15OptionObjects: R-C15.5.
+func c15OptionObjects(c *Ctx) {
+	p, r := c.P, c.R
+	nFn, nBad := 0, 0
+	for _, fn := range p.ModuleFuncs() {
+		if fn.Blocks == nil || isGenerated(p, fn) {
+			continue
+		}
+		// parsed options of this function
+		isOpts := map[ssa.Value]bool{}
+		for _, cc := range callsNamed(fn, mod+".GetOpts") {
+			isOpts[extractOf(cc, 0)] = true
+		}
+		if len(isOpts) == 0 {
+			continue
+		}
+		nFn++
+		sites := core.DeepFind(fn, core.MaxSummaryDepth, func(in ssa.Instruction) bool {
+			switch in.(type) {
+			case *ssa.Store, *ssa.MapUpdate:
+				return true
+			}
+			return false
+		})
+		for _, site := range sites {
+			site.In(func() {
+				var target core.Path
+				what := ""
+				switch x := site.Instr.(type) {
+				case *ssa.Store:
+					target, what = core.PathOf(x.Addr), "store"
+					// a store into the Options struct itself (opts.WithX = v) changes this call's copy only
+					if len(target.Fields) < 2 {
+						return
+					}
+				case *ssa.MapUpdate:
+					target, what = core.PathOf(x.Map), "map update"
+					if len(target.Fields) < 1 {
+						return
+					}
+				}
+				if !isOpts[target.Root] {
+					return
+				}
+				nBad++
+				r.Bad("R-C15.5", fmt.Sprintf("%s %s through opts.%s", core.FuncName(fn), what, strings.Join(target.Fields, ".")), p.Pos(site.Instr.Pos()),
+					"an object the application passed in an option is modified ("+what+" in "+core.FuncName(site.Fn)+"): the listener hands the same option values to every handshake, so one connection's data leaks into others and the write races")
+			})
+		}
+	}
+	if nFn == 0 {
+		r.Unk("R-C15.5", "functions parsing options", "", "no GetOpts call found in the module")
+	} else if nBad == 0 {
+		r.OK("R-C15.5", "writes through option values", "", fmt.Sprintf("none in %d option-parsing functions and their helpers", nFn))
+	}
 }
